@@ -1,9 +1,11 @@
 SPECIFICATION Spec
 CONSTANTS
   Vouchers = {"va", "vb"}
-  AmtClasses = {"1", "2", "zero", "garbage", "neg"}
-  RecvClasses = {"user", "invalid", "blocked"}
+  AmtClasses = {"1", "2", "garbage"}
+  RecvClasses = {"user", "blocked"}
+  BackDenoms = {"va"}
   HookReturnsAck = TRUE
-INVARIANTS AckAlwaysCommitted SuccessAcked Backed
+INVARIANTS AckAlwaysCommitted SuccessAcked Backed NonNegative
+PROPERTIES SettledOnce RefundExact
 CONSTRAINT BoundSmall
 CHECK_DEADLOCK FALSE
